@@ -9,7 +9,7 @@ from fparser.two.utils import Base, walk, StmtBase
 
 
 def units(tier):
-    return PG.program_units(tier, "wf_prog", ics=(True, False), rotate=True)
+    return PG.program_units(tier, "wf_prog", ics=(True, False), rotate=True) + PG.corpus_units(tier, "wf_prog")
 
 
 def meta(tier):
